@@ -71,6 +71,23 @@ def gen(rng, tier):
             T.append([str(Fraction(c, sum(row))) for c in row])
         yield {'trajs': None, 'lag': 1, 'start': rng.randrange(k), 'steps': rng.choice([1, 2, 10, 100]), 'seed': rng.randrange(2**31),
                'alpha': 'tmat', 'tmat': T}
+    for _ in range(3 if tier == 'quick' else 60):       # user matrices normalised only within the accepted 1e-8: sampled as the NORMALISED matrix
+        k = rng.randint(2, 4)
+        T = []
+        for i in range(k):
+            row = [rng.randint(1, 9) for _ in range(k)]
+            q = [Fraction(c, sum(row)) for c in row]
+            q[rng.randrange(k)] += Fraction(rng.choice([-6, -3, 4, 7]), 10**9)
+            T.append([str(x) for x in q])
+        yield {'trajs': None, 'lag': 1, 'start': rng.randrange(k), 'steps': rng.choice([10, 100]), 'seed': rng.randrange(2**31),
+               'alpha': 'tmat-offnorm', 'tmat': T}
+    for _ in range(4 if tier == 'quick' else 60):       # a StateTraj object (negative, gapped labels) whose trajectories were read before
+        labs = sorted(rng.sample(range(-9, 12), rng.randint(3, 4)))
+        if labs[0] >= 0:
+            labs[0] = -rng.randint(1, 5)
+        t = G.traj(rng, labs, rng.randint(40, 120), sticky=0.5) + labs
+        yield {'trajs': [t], 'lag': 1, 'start': rng.choice(labs), 'steps': rng.choice([20, 100]), 'seed': rng.randrange(2**31),
+               'alpha': 'negative-gapped', 'tmat': None, 'asobj': True}
     for _ in range(3 if tier == 'quick' else 60):       # user matrices with transitions of probability ~1e-6
         k = rng.randint(2, 4)
         T = []
@@ -160,6 +177,10 @@ def impl(case):
         trajs = [np.array(t) for t in G.expand(case)]
         st = mh.StateTraj(trajs)
         out['states'] = [int(s) for s in st.states]
+        if case.get('asobj'):
+            # the object is what gets passed on; its trajectories, repr and iteration were used before
+            _ = st.trajs, repr(st), [x for x in st], st.trajs_flatten, st == st
+            trajs = st
         # history: the same frames cut differently (joined into one trajectory, or the first one cut in
         # two) are sampled FIRST; nothing of that call may survive into the calls on `trajs`
         related(trajs, case['lag'], lambda d: ts.propagate_MCMC(d, case['lag'], 3))
